@@ -128,8 +128,9 @@ var nestGens = []nestGen{
 	{"comment-lines", func(n int) string { return rep("#\n", n) + "x = 1\n" }, 2},
 	{"statements-many", func(n int) string { return rep("x=1\n", n) }, 4},
 	{"semicolons", func(n int) string { return "x=1" + rep(";x=1", n) + "\n" }, 4},
-	{"string-repeat-mul-runtime", func(n int) string { return "x = \"a\"" + rep("*2", n) + "\n" }, 2},
-	{"shift-runtime", func(n int) string { return "x = 1" + rep("<<500", n) + "\n" }, 5},
+	// (sizes capped: the result doubles per step; building gigabyte values is memory exhaustion, outside the claim)
+	{"string-repeat-mul-runtime", func(n int) string { return "x = \"a\"" + rep("*2", min(n, 22)) + "\ny = [1]" + rep("*2", min(n, 22)) + "\n" }, 2},
+	{"shift-runtime", func(n int) string { return "x = 1" + rep("<<500", min(n, 1500)) + "\n" }, 5},
 	{"def-nest", func(n int) string {
 		return blockNest(func(d int) string { return fmt.Sprintf("def f%d():", d) }, n, "return 1")
 	}, 0},
